@@ -14,6 +14,7 @@ import CbiVerif.Drv.C01
 import CbiVerif.Drv.CLex
 import CbiVerif.Drv.Compilers
 import CbiVerif.Drv.Regex
+import CbiVerif.Drv.RegexSpec
 import CbiVerif.Drv.Eval
 import CbiVerif.Drv.EvalLayout
 import CbiVerif.Drv.CondFrag
@@ -26,6 +27,7 @@ import CbiVerif.Drv.Include
 import CbiVerif.Drv.GitIgnore
 import CbiVerif.Drv.Reach
 import CbiVerif.Drv.WarnMsg
+import CbiVerif.Drv.Engines
 /-! Native JSON-lines driver: one request object per line, one reply per line.
 Each area registers its ops in `CbiVerif/Drv/<Area>.lean`. -/
 open Lean
@@ -46,6 +48,7 @@ def handlerTable : List (String × (Json → Json)) :=
   CbiVerif.Drv.CLex.handlers ++
   CbiVerif.Drv.Compilers.handlers ++
   CbiVerif.Drv.Regex.handlers ++
+  CbiVerif.Drv.RegexSpec.handlers ++
   CbiVerif.Drv.Eval.handlers ++
   CbiVerif.Drv.EvalLayout.handlers ++
   CbiVerif.Drv.CondFrag.handlers ++
@@ -57,7 +60,8 @@ def handlerTable : List (String × (Json → Json)) :=
   CbiVerif.Drv.Include.handlers ++
   CbiVerif.Drv.GitIgnore.handlers ++
   CbiVerif.Drv.Reach.handlers ++
-  CbiVerif.Drv.WarnMsg.handlers
+  CbiVerif.Drv.WarnMsg.handlers ++
+  CbiVerif.Drv.Engines.handlers
 
 def handle (j : Json) : Json :=
   match j.getObjValAs? String "op" with
